@@ -80,6 +80,7 @@ func safeLoad(repo, verif string) (p *Prog, err error) {
 	}
 	p.buildGuards()
 	p.registerModuleFields()
+	p.loadParamAliases(verif)
 	return p, nil
 }
 
